@@ -95,7 +95,20 @@ def spec (caseLine implLine : String) : String :=
         let once := pick "c" c.m.counters ++ pick "t" c.m.timers ++ pick "g" c.m.gauges ++ pick "s" c.m.sets
         let want := sortStrings (once ++ once)
         ws[w]! == (if want.isEmpty then "-" else " ; ".intercalate want))
+    -- dispatch under cancellation (third part, `X …`, not predicted by the model): which shards still get through is the
+    -- runtime's choice, but whatever worker w is handed must be routed to w, at most once
+    let xpart := halves.getD 2 ""
+    let cancelledOk : Bool :=
+      if !xpart.startsWith "X " then true else
+      let ws := (xpart.drop 2).toString.splitOn " | "
+      ws.length == c.n && (List.range c.n).all (fun w =>
+        let pick (ty : String) (l : AList Key String) :=
+          (l.filter (fun e => oracle c e.1 % c.n == w)).map (fun e => s!"{ty} {e.1.1} {e.1.2} {e.2}")
+        let allowed := pick "c" c.m.counters ++ pick "t" c.m.timers ++ pick "g" c.m.gauges ++ pick "s" c.m.sets
+        let got := if ws[w]! == "-" then [] else ws[w]!.splitOn " ; "
+        got.all (fun e => allowed.contains e) && got.eraseDups.length == got.length)
     if !dispatchOk then "FAIL dispatch a worker was handed a series that is not routed to it (or missed one)" else
+    if !cancelledOk then "FAIL dispatch-cancelled while the dispatch was being cancelled a worker was handed a series that is not routed to it (or one twice)" else
     if pieces.length ≠ c.n then s!"FAIL piece-count {pieces.length} != {c.n}" else
     let expected (i : Nat) : List String :=
       let pick (ty : String) (l : AList Key String) :=
